@@ -554,3 +554,13 @@ func parseSMTBV(val []string) int64 {
 	}
 	return 0
 }
+
+func init() {
+	// hexbyte(b): two lower-case hex digits of a byte; injective (inverse function instance)
+	ufAxioms["hexbyte"] = func(u *Term) []*Term {
+		return []*Term{
+			TEq(TLen(u), TInt(2)),
+			TEq(TUF("unhexbyte", SBV8, u), u.args[0]),
+		}
+	}
+}
